@@ -301,7 +301,7 @@ def sealed_tree(ctx, case):
     t = ops.build(ctx, case["tree"], case["ops"])
     sub.materialise(ctx.root, t)
     for p in sorted(t):
-        if not p.endswith(".mhl"):
+        if not (p.endswith(".mhl") and ref.is_in_ascmhl(p)):   # media files may be called *.mhl as well
             continue
         back = XP.parse(os.path.join(ctx.root, p))
         m = ref.read_manifest(t[p])
